@@ -63,7 +63,7 @@ func mkReceipt(block, idx uint64, tx core.Transaction) *core.TransactionReceipt 
 		ExecutionResources: &core.ExecutionResources{Steps: id, MemoryHoles: idx,
 			BuiltinInstanceCounter: core.BuiltinInstanceCounter{Pedersen: id, RangeCheck: 2}}}
 	for e := uint64(0); e < (id % 3); e++ {
-		r.Events = append(r.Events, &core.Event{From: f(0xa + e), Keys: fs(id, e), Data: fs(e, e + 1)})
+		r.Events = append(r.Events, &core.Event{From: f(0xa + e), Keys: fs(id, e), Data: fs(e, e+1)})
 	}
 	if id%4 == 0 {
 		r.Reverted, r.RevertReason = true, fmt.Sprintf("reverted-%d", id)
@@ -76,6 +76,7 @@ func mkReceipt(block, idx uint64, tx core.Transaction) *core.TransactionReceipt 
 
 // shape = number of transactions of each block (len = number of blocks; height = len-1).
 type chain struct {
+	l1lag int // the recorded L1 head is this many blocks below the tip (0: at the tip)
 	shape []int
 	txs   [][]core.Transaction
 	rcs   [][]*core.TransactionReceipt
@@ -119,7 +120,8 @@ func (c *chain) oldLayoutDB(prunedBelow int) *memory.Database {
 	}
 	must(core.WriteChainHeight(m, uint64(len(c.shape)-1)))
 	tip := uint64(len(c.shape) - 1)
-	must(core.WriteL1Head(m, &core.L1Head{BlockNumber: tip, BlockHash: f(0xb10c000 + tip), StateRoot: f(0x57a7e)}))
+	l1 := tip - uint64(min(c.l1lag, int(tip)))
+	must(core.WriteL1Head(m, &core.L1Head{BlockNumber: l1, BlockHash: f(0xb10c000 + l1), StateRoot: f(0x57a7e)}))
 	for b := range c.shape {
 		if b < prunedBelow {
 			continue
